@@ -108,6 +108,22 @@ Proof.
   intros ->. reflexivity.
 Qed.
 
+(* the receive transaction: a panicking callback keeps NOTHING (class 3); otherwise the transaction is the core rule, and an
+   error acknowledgement (class 2) leaves exactly the core's own writes and the acknowledgement *)
+Lemma recv_tx_outcomes S parse_ok transfer_recv hook tao write_ack pre :
+  recv_tx S parse_ok transfer_recv hook tao write_ack true pre = (pre, 3) /\
+  (let (s, cls) := recv_tx S parse_ok transfer_recv hook tao write_ack false pre in
+   (cls = 1 \/ cls = 2) /\ (cls = 2 -> s = recv_designated S tao write_ack pre) /\
+   (cls = 1 <-> snd (mw_on_recv S parse_ok transfer_recv hook (tao pre)) = true)).
+Proof.
+  split; [reflexivity|]. unfold recv_tx.
+  destruct (snd (mw_on_recv S parse_ok transfer_recv hook (tao pre))) eqn:E.
+  - unfold core_recv, branch, commit. destruct (mw_on_recv S parse_ok transfer_recv hook (tao pre)) as [c' ok]; cbn in *. subst ok.
+    split; [left; reflexivity|]. split; [discriminate|]. split; reflexivity.
+  - rewrite (recv_error_ack S parse_ok transfer_recv hook tao write_ack pre E).
+    split; [right; reflexivity|]. split; [reflexivity|]. split; discriminate.
+Qed.
+
 (* the three places where the middleware answers with an error acknowledgement *)
 Lemma mw_error_points S parse_ok transfer_recv hook ctx :
   snd (mw_on_recv S parse_ok transfer_recv hook ctx) = false <->
